@@ -33,7 +33,7 @@ TOOLS = ["echo data | tee {f}", "echo data | tee -a {f}", "sort -o {f} in", "sor
 
 
 def targets(work):
-    return ["ok", "okdir/a", "okdir/deep/b", "f", "no", "q", "sub/x", "./ok", "okdir/../f", work + "/ok", work + "/f", '"ok"', "'okdir/a'", "-", "/dev/null", "&1", "../escape", "ok/", "okdir//a", "sub/../ok"]
+    return ["ok", "okdir/a", "okdir/deep/b", "f", "no", "q", "sub/x", "./ok", "okdir/../f", work + "/ok", work + "/f", '"ok"', "'okdir/a'", "-", "/dev/null", "&1", "../escape", "ok/", "okdir//a", "sub/../ok", "3", "10", "007", "&2", "&-", "1", "-x", "~nobody", ".", "ok.1"]
 
 
 def config_for(work, r):
